@@ -12,7 +12,12 @@ Line-protocol component for C16.
     powerstr i  partstr i
     addseq i lo n step  removeseq i lo n step     n calls Add(v) / Remove(v), v = lo, lo+step, …  (the harness examines the set after every call)
     addvar i lo n step  removevar i lo n step     one variadic call with those n values
-    all2 i j      seq := i.All(); run seq; run j.All(); run seq again        (prints the three runs)
+    all2 i j      seq := i.All(); run seq; run j.All(); run seq again        (prints the three runs; three draws)
+    allthen i add v… | remove v… | removeall      seq := i.All(); the mutation; run seq          (prints the run)
+    allrerun i add v… | remove v… | removeall     seq := i.All(); run seq; the mutation; run seq (prints both runs)
+    allnever i    seq := i.All(), never run                                   (no draw from the shuffle source)
+A sequence is a handle on its set object (`Model/C16.lean`, `Seq`): obtaining it lists and draws nothing; every RUN
+lists — and for the unordered set shuffles, one draw — the members the object has at that moment (/repo 4fb90a5).
     allnest i j   for range i.All() { run j.All() }                          (prints the outer run and the number of inner yields)
     allpull i j   iter.Pull(i.All()), iter.Pull(j.All()) advanced alternately (prints both)
     allbreak i k  a traversal of i abandoned after k members, then a full one (prints min(k, size) and the full run)
@@ -275,6 +280,13 @@ def allOf (st : St) (i : Nat) : Option (Outcome (St × List Int × String)) := d
   | .panic => some .panic
   | .diverge => some .diverge
 
+/-- the mutation of `allthen` / `allrerun` -/
+def mutOf (i : Nat) : List String → Option (OpX Int)
+  | "add" :: vs => do return .base (.add i (← parseInts vs))
+  | "remove" :: vs => do return .base (.remove i (← parseInts vs))
+  | ["removeall"] => some (.base (.removeAll i))
+  | _ => none
+
 /-- the line-protocol forms that are compositions of Model operations -/
 def stepMacro (st : St) (ws : List String) : Option (Outcome (St × String)) :=
   let seqOf (i lo n step : String) (mk : Nat → List Int → List (OpX Int)) : Option (Outcome (St × String)) := do
@@ -290,16 +302,51 @@ def stepMacro (st : St) (ws : List String) : Option (Outcome (St × String)) :=
   | ["addvar", i, lo, n, step] => seqOf i lo n step fun i vs => [.base (.add i vs)]
   | ["removevar", i, lo, n, step] => seqOf i lo n step fun i vs => [.base (.remove i vs)]
   | ["all2", i, j] => do
-    -- the iter.Seq of `i` is a value: run twice it yields the same members; `All()` is called once per set
+    -- the iter.Seq of `i` is a handle: each of its two runs lists and shuffles the members anew (two draws for `i`)
     let i ← parseNat? i; let j ← parseNat? j
     match ← allOf st i with
     | .ok (st, _, a) =>
       match ← allOf st j with
-      | .ok (st, _, b) => some (.ok (st, s!"ok {a} {b} {a}"))
+      | .ok (st, _, b) =>
+        match ← allOf st i with
+        | .ok (st, _, a') => some (.ok (st, s!"ok {a} {b} {a'}"))
+        | .panic => some .panic
+        | .diverge => some .diverge
       | .panic => some .panic
       | .diverge => some .diverge
     | .panic => some .panic
     | .diverge => some .diverge
+  | "allthen" :: i :: mu => do
+    -- obtaining the sequence does nothing; the run sees the set as the mutation left it
+    let i ← parseNat? i
+    let op ← mutOf i mu
+    match stepMany st [op] with
+    | .ok st =>
+      match ← allOf st i with
+      | .ok (st, _, a) => some (.ok (st, s!"ok {a}"))
+      | .panic => some .panic
+      | .diverge => some .diverge
+    | .panic => some .panic
+    | .diverge => some .diverge
+  | "allrerun" :: i :: mu => do
+    let i ← parseNat? i
+    let op ← mutOf i mu
+    match ← allOf st i with
+    | .ok (st, _, a) =>
+      match stepMany st [op] with
+      | .ok st =>
+        match ← allOf st i with
+        | .ok (st, _, a') => some (.ok (st, s!"ok {a} {a'}"))
+        | .panic => some .panic
+        | .diverge => some .diverge
+      | .panic => some .panic
+      | .diverge => some .diverge
+    | .panic => some .panic
+    | .diverge => some .diverge
+  | ["allnever", i] => do
+    let i ← parseNat? i
+    let _ ← st.regs[i]?
+    some (.ok (st, "ok"))
   | ["allpull", i, j] => do
     let i ← parseNat? i; let j ← parseNat? j
     match ← allOf st i with
